@@ -688,6 +688,7 @@ pub fn check(cfg: &Cfg) -> Result<i32, Harness> {
             }
             crate::par::CaseEnd::Crashed(how) => violations.push(crash_violation(cfg, i as u64, &format!("killed the process ({how})"))),
             crate::par::CaseEnd::Hung => violations.push(crash_violation(cfg, i as u64, "did not come back within 45 s")),
+            crate::par::CaseEnd::Skipped => evaluations -= 1,
         }
     }
     let cli_viol = cli_pass(cfg, &mut tally, &mut keys)?;
@@ -709,12 +710,12 @@ pub fn check(cfg: &Cfg) -> Result<i32, Harness> {
             "values_read": tally.get("values_read"),
             "cli_runs": pick("cli_runs:"),
             "cli_faults_fired": pick("cli_fired:"),
-            "not_covered": "arbitrary filter text and arbitrary argument values to built-in filters (a search over inputs, not over faults or schedules): not decided by this technique, not claimed",
+            "not_covered": "arbitrary argument values to built-in filters, and filter text beyond what storage damage of the seed programs reaches (a search over inputs, not over faults or schedules): not decided by this technique, not claimed",
             "real_vs_stub": {"real": ["jaq-fmts readers/writers, jaq-json reader/writer, from*/to* natives, the jaq binary (CLI pass)"], "simulated": ["Read/BufRead source with chunking, EINTR, hard errors", "Write sink with short writes, EINTR, failures", "storage corruption of the document", "errno injection at the system-call boundary (CLI pass)"]},
             "samples": samples,
         }),
         assumptions: vec![
-            "scope restricted to documents met as faulty byte streams, writers on faulty sinks and the CLI under I/O faults; filter text and native arguments are not explored".into(),
+            "scope restricted to documents and stored program text met as faulty byte streams, writers on faulty sinks and the CLI under I/O faults; native arguments are not explored, filter text only as far as storage damage of the seed programs reaches".into(),
             "documents are at most 8 KiB, so stack exhaustion by nesting (excepted by the statement) cannot be the cause of a crash with a 1 GiB stack".into(),
         ],
     };
